@@ -7,6 +7,7 @@
 import Mistletoe.Model.Markdown
 import Mistletoe.Proofs.InertInline
 import Mistletoe.Props.C14
+import Mistletoe.Props.C04
 namespace Mistletoe.MdRound
 open Mistletoe Mistletoe.Py Mistletoe.Wrap Mistletoe.Markdown Mistletoe.InertInline Mistletoe.Document
 
@@ -172,5 +173,181 @@ theorem joinLines_proseOut : ∀ (rest : List (List Str)) (p : List Str),
     have ih := joinLines_proseOut rest q (hr q (by simp)) (fun x hx => hr x (List.mem_cons_of_mem _ hx))
     simp only [proseOut, Mistletoe.Props.C14.joinBlank, joinLines_append, joinLines_strip p hp, joinLines, ih]
     simp
+
+theorem strip_nl_lines (p : List Str) (hp : ∀ l ∈ p, proseLine l = true ∧ lstrip l = l) :
+    (p.map strip).map (· ++ ['\n']) = p := by
+  rw [List.map_map]
+  conv => rhs; rw [← List.map_id p]
+  exact List.map_congr_left (fun l hl => normal_line l (hp l hl).1 (hp l hl).2)
+
+theorem proseOut_lines : ∀ (rest : List (List Str)) (p : List Str),
+    (∀ l ∈ p, proseLine l = true ∧ lstrip l = l) → (∀ q ∈ rest, ∀ l ∈ q, proseLine l = true ∧ lstrip l = l) →
+    (proseOut p rest).map (· ++ ['\n']) = Mistletoe.Props.C14.joinBlank p rest
+  | [], p, hp, _ => by
+    simp only [proseOut, Mistletoe.Props.C14.joinBlank, strip_nl_lines p hp]
+  | q :: rest, p, hp, hr => by
+    have ih := proseOut_lines rest q (hr q (by simp)) (fun x hx => hr x (List.mem_cons_of_mem _ hx))
+    simp only [proseOut, Mistletoe.Props.C14.joinBlank, List.map_append, List.map_cons, ih, strip_nl_lines p hp,
+      List.nil_append]
+
+/-! ### block quotes around a prose document
+
+  The renderer writes a block quote by putting "> " before every line of its content, the empty lines
+  included ("> " is not blanked by `prefix_lines`: it is not all whitespace).  The parser (C04) turns
+  lines that all carry the marker "> " into one `Quote` around the parse of the unmarked lines. -/
+
+open Mistletoe.Block (Line Entry Buf St tokenizeBlock quoteSp)
+open Mistletoe.Props.C14 (numbered numbered_cons joinBlank paraEntries)
+
+/-- the lines `ss` behind `k` markers "> " -/
+def qStrs : Nat → List Str → List Str
+  | 0, ss => ss
+  | k + 1, ss => (qStrs k ss).map (fun s => '>' :: ' ' :: s)
+
+def qLines : Nat → List Line → List Line
+  | 0, L => L
+  | k + 1, L => (qLines k L).map quoteSp
+
+def qLine : Nat → Line → Line
+  | 0, l => l
+  | k + 1, l => quoteSp (qLine k l)
+
+theorem qLines_cons : ∀ (k : Nat) (l : Line) (ls : List Line), qLines k (l :: ls) = qLine k l :: qLines k ls
+  | 0, _, _ => rfl
+  | k + 1, l, ls => by simp only [qLines, qLine, qLines_cons k l ls, List.map_cons]
+
+theorem qLine_origin : ∀ (k : Nat) (l : Line), (qLine k l).origin = l.origin
+  | 0, _ => rfl
+  | k + 1, l => by simp only [qLine, quoteSp, qLine_origin k l]
+
+theorem qLines_notab : ∀ (k : Nat) (L : List Line), (∀ l ∈ L, '\t' ∉ l.s) → ∀ l ∈ qLines k L, '\t' ∉ l.s
+  | 0, _, h => h
+  | k + 1, L, h => by
+    intro l hl
+    simp only [qLines, List.mem_map] at hl
+    obtain ⟨x, hx, rfl⟩ := hl
+    have := qLines_notab k L h x hx
+    simp only [quoteSp, List.mem_cons, not_or]
+    exact ⟨by decide, by decide, this⟩
+
+theorem numbered_qStrs : ∀ (k n : Nat) (ss : List Str), numbered n (qStrs k ss) = qLines k (numbered n ss)
+  | 0, _, _ => rfl
+  | k + 1, n, ss => by
+    simp only [qStrs, qLines, Mistletoe.Props.C04.numbered_map_sp, numbered_qStrs k n ss]
+
+/-- `k` nested `Quote` entries around the entries `E` -/
+def qEntries (start o : Nat) (E : List Entry) : Nat → List Entry
+  | 0 => E
+  | k + 1 => [.quote (qEntries start o E k) false start o]
+
+/-- **`k` markers "> " before every line give `k` nested quotes around the parse** (from C04), for lines
+    whose parse does not depend on the state (`h0`; prose documents: C14) -/
+theorem tokenize_qLines (cfg : Block.Cfg) (pre post : List Block.BTok) (hty : cfg.types = pre ++ .quote :: post)
+    (hnq : .quote ∉ pre) (hnp : .paragraph ∉ pre) (l0 : Line) (ls : List Line) (hnt : ∀ l ∈ l0 :: ls, '\t' ∉ l.s)
+    (start : Nat) (E : List Entry) (G : Nat)
+    (h0 : ∀ st, tokenizeBlock cfg G (l0 :: ls) start st = .ok ({ entries := E, loose := false }, st)) :
+    ∀ (k : Nat) (st : St), ∃ st', tokenizeBlock cfg (G + k * (pre.length + 3)) (qLines k (l0 :: ls)) start st =
+        .ok ({ entries := qEntries start l0.origin E k, loose := false }, st') ∧ st'.defs = st.defs
+  | 0, st => ⟨st, by simpa [qLines, qEntries] using h0 st, rfl⟩
+  | k + 1, st => by
+    obtain ⟨st1, h1, hd⟩ := tokenize_qLines cfg pre post hty hnq hnp l0 ls hnt start E G h0 k { st with setext := false }
+    rw [qLines_cons] at h1
+    have hk := qLines_notab k (l0 :: ls) hnt
+    rw [qLines_cons] at hk
+    have := Mistletoe.Props.C04.C04_quote_wraps cfg pre post hty hnq hnp (qLine k l0) (qLines k ls) hk start st st1 _ _ h1
+    refine ⟨{ st1 with setext := true }, ?_, hd⟩
+    have e : G + (k + 1) * (pre.length + 3) = G + k * (pre.length + 3) + (pre.length + 3) := by rw [Nat.succ_mul]; omega
+    simp only [qLines, qEntries]
+    rw [e, qLines_cons, this, qLine_origin]
+
+/-- the state-independent block parse of a prose document (C14, every state) -/
+theorem tokenize_prose_doc (cfg : Block.Cfg) (hpar : .paragraph ∈ cfg.types) (p : List Str) (rest : List (List Str))
+    (hp : p ≠ [] ∧ ∀ s ∈ p, Mistletoe.Props.C14.inertLine s = true)
+    (hrest : ∀ q ∈ rest, q ≠ [] ∧ ∀ s ∈ q, Mistletoe.Props.C14.inertLine s = true) (gas : Nat) (st : St) :
+    tokenizeBlock cfg (gas + (2 * rest.length + cfg.types.length + 4)) (numbered 0 (joinBlank p rest)) 1 st =
+      .ok ({ entries := paraEntries (cfg.types.contains .blankLine) 1 p rest,
+             loose := !cfg.types.contains .blankLine && !rest.isEmpty }, st) := by
+  have hr := Mistletoe.Props.C14.numberedRest_ok rest (0 + p.length) hrest
+  rw [Mistletoe.Props.C14.numbered_join]
+  have := Mistletoe.Props.C14.C14_blank_separated cfg hpar (numbered 0 p)
+    (Mistletoe.Props.C14.numberedRest (0 + p.length) rest)
+    (by intro e
+        have := congrArg List.length e
+        rw [Mistletoe.Props.C14.numbered_length] at this
+        exact hp.1 (List.eq_nil_of_length_eq_zero this))
+    (fun l hl => hp.2 _ (Mistletoe.Props.C14.numbered_mem _ _ _ hl)) hr.2 1 st gas
+  rw [hr.1] at this
+  rw [this]
+  have d := Mistletoe.Props.C14.docEntries_numbered (cfg.types.contains .blankLine) rest p 0 hp.1 (fun q hq => (hrest q hq).1)
+  simp only [Nat.zero_add] at d ⊢
+  rw [d]
+  cases rest <;> simp [Mistletoe.Props.C14.numberedRest]
+
+/-- `k` nested `Quote` tokens around the blocks `B` -/
+def qBlocks (ln : Nat) (B : List Mistletoe.Block) : Nat → List Mistletoe.Block
+  | 0 => B
+  | k + 1 => [.quote (qBlocks ln B k) ln]
+
+theorem mkBlocks_qEntries (cfg : Document.Cfg) (fn : Footnotes.Table) (start o : Nat) (E : List Entry)
+    (B : List Mistletoe.Block) (h : mkBlocks cfg fn E = .ok B) :
+    ∀ k, mkBlocks cfg fn (qEntries start o E k) = .ok (qBlocks start B k)
+  | 0 => h
+  | k + 1 => by
+    simp only [qEntries, qBlocks, mkBlocks, mkBlock, mkBlocks_qEntries cfg fn start o E B h k]
+
+theorem prefixLines_quote : ∀ (ls : List Str), prefixLines ls ['>', ' '] none = ls.map (fun s => '>' :: ' ' :: s) := by
+  have aux : ∀ (ls : List Str), prefixLinesAux ['>', ' '] ls = ls.map (fun s => '>' :: ' ' :: s) := by
+    intro ls
+    induction ls with
+    | nil => rfl
+    | cons l ls ih =>
+      simp only [prefixLinesAux, ih, List.map_cons]
+      simp [show pyIsSpace '>' = false by decide]
+  intro ls
+  cases ls with
+  | nil => rfl
+  | cons l ls =>
+    simp only [prefixLines, aux, List.map_cons]
+    simp [show pyIsSpace '>' = false by decide]
+
+theorem renderBlocks_qBlocks (o : Opts) (ln : Nat) (B : List Mistletoe.Block) (out : List Str)
+    (h : renderBlocks o none B = .ok out) : ∀ k, renderBlocks o none (qBlocks ln B k) = .ok (qStrs k out)
+  | 0 => h
+  | k + 1 => by
+    have ih := renderBlocks_qBlocks o ln B out h k
+    have cb : childBudget none 2 = none := rfl
+    simp only [qBlocks, qStrs, renderBlocks, renderBlock, cb, ih, prefixLines_quote, List.append_nil]
+
+theorem qStrs_nl : ∀ (k : Nat) (out : List Str), (qStrs k out).map (· ++ ['\n']) = qStrs k (out.map (· ++ ['\n']))
+  | 0, _ => rfl
+  | k + 1, out => by
+    simp only [qStrs, List.map_map, ← qStrs_nl k out]
+    rfl
+
+theorem qStrs_ne : ∀ (k : Nat) (ss : List Str), ss ≠ [] → qStrs k ss ≠ []
+  | 0, _, h => h
+  | k + 1, ss, h => by simpa [qStrs] using qStrs_ne k ss h
+
+theorem qStrs_oneLine : ∀ (k : Nat) (ss : List Str), (∀ l ∈ ss, oneLine l = true) → ∀ l ∈ qStrs k ss, oneLine l = true
+  | 0, _, h => h
+  | k + 1, ss, h => by
+    intro l hl
+    simp only [qStrs, List.mem_map] at hl
+    obtain ⟨x, hx, rfl⟩ := hl
+    have := qStrs_oneLine k ss h x hx
+    simp only [oneLine, Bool.and_eq_true, beq_iff_eq, List.all_eq_true] at this ⊢
+    obtain ⟨h1, h2⟩ := this
+    cases x with
+    | nil => simp at h1
+    | cons c r =>
+      refine ⟨by simpa using h1, ?_⟩
+      intro y hy
+      have e : ('>' :: ' ' :: c :: r).dropLast = '>' :: ' ' :: (c :: r).dropLast := by simp [List.dropLast]
+      rw [e] at hy
+      rcases List.mem_cons.mp hy with rfl | hy
+      · decide
+      rcases List.mem_cons.mp hy with rfl | hy
+      · decide
+      exact h2 y hy
 
 end Mistletoe.MdRound
